@@ -44,6 +44,10 @@ def gen_cases(rng, tier: str) -> list[dict]:
             p = {k: full[k] for k in s}
             if rng.random() < 0.4:
                 p["extra"] = 1.5
+            if rng.random() < 0.12:
+                # a point with many coordinates the expression does not mention (a row of a table with dozens of columns)
+                for k in range(rng.choice([9, 10, 11, 12, 25, 60])):
+                    p[f"col{k}"] = float(k)
             e2, p2 = gen.safe_numbers(e, p)
             cases.append({"origin": origin.split(":")[0], "e": wire.expr(e2, ids={}), "p": wire.point(p2),
                           "supplied": sorted(s), "x": rng.choice(vs + ["w"])})
@@ -127,7 +131,13 @@ def check_cases(cases: list[dict], rep: Report, known: dict) -> None:
         if nc.verdict.startswith("skip"):
             rep.skip(nc.verdict[5:])
         elif nc.verdict == "mismatch":
-            rep.corr_break(f"evaluation outcome differs from the model: {nc.detail}", nc.info)
+            model = nc.info.get("model_F0", "")
+            if model.startswith("err missing") != (nc.impl == ("err", "missing")):
+                # the statement itself: CoordinateMissing exactly when an occurring variable lacks its coordinate
+                rep.violation(f"CoordinateMissing is due exactly when an occurring variable lacks a coordinate: implementation {nc.impl!r}, "
+                              f"model {model[:60]}", nc.info)
+            else:
+                rep.corr_break(f"evaluation outcome differs from the model: {nc.detail}", nc.info)
         else:
             rep.corr_checked += 1
             if len(rep.samples) < 6 and not nc.info["complete"]:
